@@ -1,6 +1,10 @@
 """Bounded native stand-in for the queue-position clause of C06 (never counted as proved): a resting limit order starts
-behind exactly the size shown at its price on the side of the book it joins (0 when that price is not shown).
-Real BetfairOrder / SimulatedOrder.place on random valid books (back side descending, lay side ascending).
+behind exactly the size shown at its price on the side of the book it joins (0 when that price is not shown), and a lone
+resting order is then filled out of half the newly traded volume at or through its price, only after the volume queued
+ahead of it at arrival has traded: after every update  matched == min(size, max(0, sum(eligible traded)/2 - queue))  (up
+to 0.01 per traded level: the engine rounds each fill to pennies).
+Real BetfairOrder / SimulatedOrder.place / SimulatedOrder._process_traded on random valid books (back side descending,
+lay side ascending) and random per-update traded-volume maps at prices below, at and above the limit.
 usage: c06_piq.py --repo R --n N --seed S"""
 import argparse, json, os, random, sys
 from unittest import mock
@@ -36,5 +40,29 @@ for it in range(a.n):
     distinct.add((side, price, nb, nl, expected))
     if abs(order.simulated._piq - expected) > 1e-9:
         failures.append(dict(kind="queue position at arrival != size shown at the order's price", side=side, price=price, available_to_back=atb, available_to_lay=atl, piq=order.simulated._piq, expected=expected))
+        break
+    # ---- resting fills: a few updates of newly traded volume (property statement: half of the eligible volume, queue first)
+    queue = expected
+    eligible_total = 0.0
+    levels = 0
+    history = []
+    for upd in range(rnd.randint(1, 4)):
+        traded = {}
+        for _ in range(rnd.randint(1, 3)):
+            traded[rnd.choice(LADDER)] = rnd.choice([1.0, 2.0, 4.0, 10.0, 30.0, 80.0])
+        history.append(dict(traded))
+        for tp, ts in traded.items():
+            if (side == "BACK" and tp >= price) or (side == "LAY" and tp <= price):
+                eligible_total += ts
+                levels += 1
+        order.simulated._process_traded(2 + upd, traded)
+        evaluations += 1
+        want = min(size, max(0.0, eligible_total / 2 - queue))
+        got = order.simulated.size_matched
+        if abs(got - want) > 0.01 * levels + 1e-9:
+            failures.append(dict(kind="lone resting order: matched != min(size, max(0, eligible traded / 2 - queue ahead at arrival))", side=side, price=price, size=size,
+                                 queue_at_arrival=queue, traded_updates=history, matched=got, expected=want))
+            break
+    if failures:
         break
 print(json.dumps(dict(evaluations=evaluations, distinct=len(distinct), failures=failures)))
